@@ -241,7 +241,9 @@ class Renderer(object):
         if e == "throw":
             return "throw %s" % x["exn"]
         if e == "try":
-            hs = "; ".join("E has %s => %s" % (h["exn"], self.ex(h["body"])) for h in x["hs"])
+            # exn_has: how a handler names the exception's category; "(%s@Category)" when the exceptions are imported from
+            # another unit (render_split(lib_exns=True)): the imported name is both a category and a domain
+            hs = "; ".join("E has %s => %s" % (getattr(self, "exn_has", "%s") % h["exn"], self.ex(h["body"])) for h in x["hs"])
             fin = "" if x["fin"].get("e") == "none" else " finally %s" % self.ex(x["fin"])
             return "(try %s catch E in { %s; true => throw E; never }%s)" % (self.ex(x["body"]), hs, fin)
         if e == "error":
@@ -426,20 +428,24 @@ def _fun_refs(body, bound):
     return free, calls
 
 
-def lib_eligible(prog):
+def lib_eligible(prog, throwers=False):
     """Indices (0-based, ascending) of the functions that can be moved into a library unit: they mention no
     file-level variable (an exported function must not capture variables of the client) and call only functions
     that can be moved as well."""
     info = {}
 
+    local_nodes = ("mac", "dcall", "try") if throwers else ("mac", "dcall", "try", "throw")
+
     def unit_local(x):
-        """mentions a macro, a domain defined in the file or an exception: those are rendered in the preamble of one unit"""
+        """mentions a macro, a domain defined in the file or an exception: those are rendered in the preamble of one unit
+        (throwers=True: the exceptions are declared in the library unit, see render_split(lib_exns=True), so a function
+        that throws -- but does not catch -- may move; so may a function with an overloaded name)"""
         if isinstance(x, dict):
-            return x.get("e") in ("mac", "dcall", "try", "throw") or any(unit_local(v) for v in x.values())
+            return x.get("e") in local_nodes or any(unit_local(v) for v in x.values())
         return isinstance(x, list) and any(unit_local(v) for v in x)
     for i, f in enumerate(prog["funs"]):
         free, calls = _fun_refs(f["body"], f["ps"])
-        if unit_local(f["body"]) or f.get("oname", f["name"]) != f["name"]:
+        if unit_local(f["body"]) or (not throwers and f.get("oname", f["name"]) != f["name"]):
             free = free | {"<unit-local>"}
         info[i] = (free, calls)
     ok = set(i for i, (free, _) in info.items() if not free)
@@ -467,27 +473,57 @@ def lib_closure(prog, funs):
     return sorted(out)
 
 
-def render_split(prog, lib_funs, libref="plib.ao", libid="PLib", names=None, dialect=None, lib_doms=()):
+def _throws(x):
+    if isinstance(x, dict):
+        return x.get("e") == "throw" or any(_throws(v) for v in x.values())
+    return isinstance(x, list) and any(_throws(v) for v in x)
+
+
+def split_plan(prog):
+    """A split that puts exception throwers and their catchers into different units when the program allows it:
+    {"lib_funs": [...], "lib_exns": bool, "throwers": n} or None if no function can be moved.  The library unit takes the
+    movable functions that throw (closed under calls); functions holding a try stay in the client.  Without a movable
+    thrower the first movable function is taken (still a separately compiled program)."""
+    el = lib_eligible(prog, throwers=True)
+    if not el:
+        return None
+    thr = [i for i in el if _throws(prog["funs"][i]["body"])]
+    funs = lib_closure(prog, thr if thr else el[:1])
+    return {"lib_funs": funs, "lib_exns": bool(prog.get("exns")), "throwers": len(thr)}
+
+
+def render_split(prog, lib_funs, libref="plib.ao", libid="PLib", names=None, dialect=None, lib_doms=(), lib_exns=False):
     """(library unit text, client unit text): the functions lib_funs (0-based indices, closed under calls, all in
     lib_eligible(prog)) and the domains lib_doms (0-based indices into prog["doms"]) are defined in the library unit;
     the client unit holds every other form in the original order and imports the library
     (`#library <libid> "<libref>"`; libref = "x.ao", or "libx.al" for an archive).  Type macros and imports are
     repeated in both units.  Domains (feature dom) are self-contained (their operations mention only their own and
     their parameter's operations); as soon as one domain is in the library unit all categories are defined there and
-    the client's remaining domains use the imported categories."""
+    the client's remaining domains use the imported categories.  lib_exns=True: the exceptions of the program are
+    declared in the library unit only (needed when a library function throws)."""
     r = Renderer(prog, names, dialect)
     pre, texts = r.parts()
+    if lib_exns:
+        rc = Renderer(prog, names, dialect)
+        rc.exn_has = "(%s@Category)"
+        ctexts = rc.parts()[1]
+    else:
+        ctexts = texts
     dd = r.domain_decls()
     ncat = len(prog.get("cats", []))
     cat_lines, dom_lines = dd[:ncat], dd[ncat:]
     common = [l for l in pre if l not in dd]
+    exn_lines = []
+    if lib_exns:       # the exception categories/domains are defined in the library unit only; the client imports them
+        exn_lines = [l for l in common if any(l.startswith("define %s:" % ex) for ex in prog.get("exns", []))]
+        common = [l for l in common if l not in exn_lines]
     lib = set(lib_funs)
     ldoms = sorted(set(lib_doms))
-    lib_lines = common + (cat_lines if ldoms else []) + [dom_lines[i] for i in ldoms]
+    lib_lines = common + exn_lines + (cat_lines if ldoms else []) + [dom_lines[i] for i in ldoms]
     lib_text = "\n".join(lib_lines + [t for (k, i, t) in texts if k == "f" and i in lib]) + "\n"
     head = [common[0], '#library %s "%s"' % (libid, libref), "import from %s;" % libid] + common[1:]
     head += ([] if ldoms else cat_lines) + [l for i, l in enumerate(dom_lines) if i not in ldoms]
-    client_text = "\n".join(head + [t for (k, i, t) in texts if not (k == "f" and i in lib)]) + "\n"
+    client_text = "\n".join(head + [t for (k, i, t) in ctexts if not (k == "f" and i in lib)]) + "\n"
     return lib_text, client_text
 
 
